@@ -312,6 +312,14 @@ CORPUS = [
     [{"k": "src", "cfg": {"value": 1}}, {"k": "rename", "a": "m", "b": "m"}, {"k": "template", "segs": [("lit", "A"), ("hole", "m")], "out": "path"}],
     [{"k": "src", "cfg": {"value": 1}}, {"k": "probe", "ckey": "factor"}, {"k": "rename", "a": "factor", "b": "factor"}, {"k": "mul"}],
     [{"k": "src", "cfg": {"value": 1}}, {"k": "rename", "a": "factor", "b": "factor"}, {"k": "probe", "ckey": "factor"}, {"k": "mul"}],
+    # a node that requires a key it also creates (the key stays required from the initial context)
+    [{"k": "src", "cfg": {"value": 1}}, {"k": "template", "segs": [("hole", "k"), ("lit", "-final")], "out": "k"}, {"k": "probe", "ckey": "j"}],
+    [{"k": "sweep", "elem": "src", "vars": [("t", ("ctx", "t_values"))], "exprs": [("value", ("var", "t"))], "mode": "combinatorial", "broadcast": False},
+     {"k": "csum"}],
+    # a defaulted parameter whose key another node requires, and whose deleted state changes AFTER / BEFORE the node
+    [{"k": "src", "cfg": {"value": 1}}, {"k": "muldef"}, {"k": "mul"}, {"k": "delete", "a": "factor"}],
+    [{"k": "src", "cfg": {"value": 1}}, {"k": "mul"}, {"k": "delete", "a": "factor"}, {"k": "muldef"}, {"k": "probe", "ckey": "factor"}],
+    [{"k": "src", "cfg": {"value": 1}}, {"k": "muldef"}, {"k": "rename", "a": "factor", "b": "j"}],
     # recreate after delete
     [{"k": "src", "cfg": {"value": 1}}, {"k": "delete", "a": "k"}, {"k": "probe", "ckey": "k"}, {"k": "rename", "a": "k", "b": "factor"}, {"k": "mul"}],
 ]
